@@ -968,6 +968,8 @@ class Translator:
         if isinstance(t, ast.Attribute):
             base = self.expr(sc, t.value)
             if t.attr in self.prop_names['set']:
+                if self.safe(sc, 'setattr', ast.unparse(t) + ' = ' + ast.unparse(getattr(node, 'value', None) or ast.Constant(value=None))[:80]):
+                    return base
                 return seq(base, self.prop_call(sc, t, 'set', node))
             return base
         if isinstance(t, ast.Subscript):
